@@ -3,7 +3,7 @@ sys.path.insert(0, os.path.join(os.path.dirname(__file__), '..', 'lib'))
 import std
 
 ARGS = {
-    'quick': ['-fields', 250, '-empty', 250, '-enc', 70, '-dec', 250],
+    'quick': ['-fields', 250, '-empty', 250, '-enc', 200, '-dec', 300],
     'thorough': ['-fields', 4000, '-empty', 4000, '-enc', 1500, '-dec', 4000],
 }
 SEARCH = ['-fields', 2000, '-empty', 2000, '-enc', 600, '-dec', 2000]
@@ -14,7 +14,7 @@ SPEC = {
     'closure_dirs': ['theories/C16', 'theories/Gen/Consts.v', 'theories/Base/Outcome.v', 'theories/Wire/Item.v'],
     'harnesses': [
         {'cmd': 'c16', 'args': ARGS, 'tags': 'verif', 'search_args': SEARCH},
-        {'cmd': 'c16', 'args': {'quick': ['-fields', 60, '-empty', 250, '-enc', 50, '-dec', 60],
+        {'cmd': 'c16', 'args': {'quick': ['-fields', 60, '-empty', 250, '-enc', 170, '-dec', 100],
                                 'thorough': ['-fields', 500, '-empty', 4000, '-enc', 1000, '-dec', 1000]},
          'tags': 'verif,codec.safe', 'search_args': SEARCH},
     ],
